@@ -222,6 +222,13 @@ class Codec:
                 return (None, len(rawmsg), None)
             tag, value = toks
 
+            try:
+                int(tag)
+            except ValueError:
+                # FIXMessage.set() would refuse it, drop this frame only
+                assert silent, f"non-integer tag {m}"
+                return (None, parsed_length, None)
+
             if tag == FTag.CheckSum:
                 cheksum_base = self.SOH.join(msg[:-1])
                 checksum = (sum([ord(i) for i in cheksum_base]) + 1) % 256
